@@ -895,6 +895,9 @@ def select__attribute_kind_test_or_axis(self: XPathToken, context: ta.ContextTyp
     else:
         name = self[0].value
         assert isinstance(name, str)
+        if ':' in name and name[0] not in '{*' and not name.endswith(':*'):
+            # a prefixed attribute name is compared by its expanded name
+            name = get_expanded_name(name, self.parser.namespaces)
 
         if self.parser.schema is not None and len(self) == 2:
             assert isinstance(self[1].value, str)
